@@ -171,6 +171,7 @@ def run_part(ctx):
         return
     scratch = P.scratch_dir('c02pbf')
     try:
+        hbin = P.private_copy(hbin, scratch)
         _run(ctx, rng, quick, hbin, scratch)
     finally:
         P.cleanup(scratch)
